@@ -178,6 +178,7 @@ pub fn unary_sp_lim<T: Px>(thorough: bool, lim_thorough: u32) -> Vec<(String, Sp
         vec![
             (String::new(), Space::func(lattice_len(n, low), format!("lattice: every value of the top {} bits x low menu", n - low), move |i| lattice_key(n, low, i) as u128)),
             ("#A".into(), Space::list32(alphabet(n, T::ES, true), format!("A({},{},rich)", n, T::ES))),
+            ("#cuts".into(), Space::list32(vpcore::alpha::cut_tail_alphabet(n, T::ES, if thorough { 8 } else { 6 }), format!("every scale x every cut position x 5 kept prefixes x every pattern of the {} bits below the cut x low fill {{0s, 1s}}, both signs", if thorough { 8 } else { 6 }))),
         ]
     }
 }
